@@ -35,6 +35,12 @@ impl PanicInfo {
     pub fn in_library(&self) -> bool {
         self.file.starts_with("/repo/")
     }
+    /// raised by the harness's own code (its sources are compiled under the relative path `src/`)
+    pub fn in_harness(&self) -> bool {
+        // (not the adversarial array backend: its assertions fire when the *library* hands it arguments outside
+        // the array contract, which is the library's doing)
+        (self.file.starts_with("src/") && !self.file.starts_with("src/adv.rs")) || self.file.starts_with("/verif/") || self.file.starts_with("<harness>")
+    }
     pub fn json(&self) -> Value {
         json!({"panic": self.msg, "at": format!("{}:{}", self.file, self.line)})
     }
@@ -228,6 +234,12 @@ pub fn must_return<T>(
         Ok(v) => {
             ctx.evaluations += 1;
             Some(v)
+        }
+        Err(p) if p.in_harness() => {
+            // a panic of harness code that ran inside the guarded closure (a conversion helper, a callback of a
+            // test functor): a harness error, never a verdict on the library
+            ctx.inconclusive(&format!("harness panic inside a guarded call to {}: {} at {}:{}", api, p.msg, p.file, p.line));
+            None
         }
         Err(p) => {
             ctx.evaluations += 1;
